@@ -117,6 +117,8 @@ def run(ctx):
                 k = val if isinstance(val, int) else ("not", tuple(val[1]))
             elif e[0] == "bin" and e[2] == C:
                 pass
+            elif e[0] == "bin" and e[1] in ("Eq", "Ne") and ("call", "cozy_chess_types::square::Square::rank", (S,)) in (e[2], e[3]):
+                pass        # `rank == Rank::First || rank == Rank::Eighth`: read through the possible-value set below
             else:
                 ctx.fail("next:unknown-decision", "next() branches on an unexpected condition: %s" % sym.show(e)[:160], where)
         if p.end == "diverge" or p.end == "panic":
@@ -146,6 +148,12 @@ def run(ctx):
         if not okmv:
             continue
         promo = dict(mvv[4]).get("promotion")
+        if rank is None:
+            rv_ = enum_values(f, [(c_[0], c_[1]) for c_ in conds], ("call", "cozy_chess_types::square::Square::rank", (S,)), "cozy_chess_types::rank::Rank")
+            rank = in_set3(rv_, {0, 7}) if len(rv_) < 8 else None
+        if pawn is None:
+            pv_ = enum_values(f, [(c_[0], c_[1]) for c_ in conds], P, PIECE)
+            pawn = in_set3(pv_, {0}) if len(pv_) < 6 else None
         promoting = and3(pawn, rank)
         if promoting is None:
             ctx.fail("next:promotion-undecided", "next() yields a move without deciding whether it is a promotion (pawn and 1st/8th rank)", where)
@@ -306,7 +314,8 @@ def run(ctx):
         pol = 1
         while r_[0] == "un" and r_[1] == "Not":
             r_, pol = r_[2], 1 - pol
-        if r_[0] == "bin" and r_[1] in ("Eq", "Ne") and (set((r_[2], r_[3])) == {PAWN, Pc} or promo in (r_[2], r_[3]) or ("discr", promo) in (r_[2], r_[3])):
+        if r_[0] == "bin" and r_[1] in ("Eq", "Ne") and (set((r_[2], r_[3])) == {PAWN, Pc} or promo in (r_[2], r_[3]) or ("discr", promo) in (r_[2], r_[3])
+                                                     or ("call", "cozy_chess_types::square::Square::rank", (mto,)) in (r_[2], r_[3])):
             return r_, pol
         return None
     expanded = []
@@ -340,6 +349,8 @@ def run(ctx):
                 feq = (e[1] == "Eq") == bool(v)
             elif e == ("has", To, mto):
                 hto = bool(v)
+            elif e[0] == "bin" and e[1] in ("Eq", "Ne") and ("call", "cozy_chess_types::square::Square::rank", (mto,)) in (e[2], e[3]):
+                pass        # read through the possible-value set below
             elif e[0] == "bin" and e[1] in ("Eq", "Ne") and (promo in (e[2], e[3]) or ("discr", promo) in (e[2], e[3]) or zob.payload(promo) in (e[2], e[3])
                                                             or ("discr", zob.payload(promo)) in (e[2], e[3])):
                 pass        # read through enum_values / opt_test below
